@@ -28,6 +28,10 @@ REQUIRE = {
     "finalized_mutator_refusals": 500,
     "cursor_compared": 300,
     "repeated_nonidempotent_map_trees": 100,
+    "operand_sequence:iter": 500,
+    "operand_sequence:gen": 500,
+    "operand_sequence:reversed": 500,
+    "operand_sequence:tuple": 500,
     "popup_compared": 50,
 }
 RULE = (
@@ -301,6 +305,8 @@ class PopTag:
 
 
 class Real:
+    seq_counts: dict = {}  # operand-sequence container kinds handed to CanvasCombine / CanvasJoin (flushed by run)
+
     """evaluates a descriptor on the real canvas classes, remembering every canvas it made"""
 
     def __init__(self, mode, leafcache=None):
@@ -360,10 +366,17 @@ class Real:
             self.note(path + ":" + op, c)
             return c
         kids = [self.ev(c, f"{path}.{i}") for i, c in enumerate(children_of(n))]
-        if op == "combine":
-            out = C.CanvasCombine([(k, i, i == n["focus"]) for i, k in enumerate(kids)])
-        elif op == "join":
-            out = C.CanvasJoin([(k, i, i == n["focus"], p[1]) for i, (k, p) in enumerate(zip(kids, n["parts"]))])
+        if op in ("combine", "join"):
+            # the operand sequence is typed Iterable: hand it over as a list, a tuple, a one-shot iterator, a
+            # generator or reversed(...) (urwid's own ScrollBar passes reversed(list)); chosen from the node
+            seqkind = n.get("seq") or ("list", "tuple", "iter", "gen", "reversed")[(len(kids) * 3 + n["focus"] + n["fin"]) % 5]
+            if op == "combine":
+                info = [(k, i, i == n["focus"]) for i, k in enumerate(kids)]
+            else:
+                info = [(k, i, i == n["focus"], p[1]) for i, (k, p) in enumerate(zip(kids, n["parts"]))]
+            Real.seq_counts[seqkind] = Real.seq_counts.get(seqkind, 0) + 1
+            seq = {"list": lambda: info, "tuple": lambda: tuple(info), "iter": lambda: iter(info), "gen": lambda: (x for x in info), "reversed": lambda: reversed(info[::-1])}[seqkind]()
+            out = C.CanvasCombine(seq) if op == "combine" else C.CanvasJoin(seq)
         elif op == "overlay":
             # every in-tree caller hands CanvasOverlay a CompositeCanvas as the top canvas (overlay() reads .shards)
             topc = kids[0] if isinstance(kids[0], C.CompositeCanvas) else C.CompositeCanvas(kids[0])
@@ -793,6 +806,8 @@ def run(ctx):
             run_case(ctx, {"mode": mode, "tree": tree, "tree2": t2}, judge_delta)
     finally:
         urwid.util.set_encoding(old_enc)
+    for kind, cnt in Real.seq_counts.items():
+        ctx.count(f"operand_sequence:{kind}", cnt)
     reach.flush(ctx)
 
 
